@@ -148,10 +148,10 @@ def _own(funcs, cls, names):
 def canonical_pair(f, cls, rf, cls_r, new_helpers, gone_helpers, cur_consts, ref_consts, cur_props=None, ref_props=None, cur_tree=None, ref_tree=None):
     s1 = equiv.sized_chains(_class_scope(cur_tree, cls, 'cur') if cls is not None else []) | {c for c in equiv.sized_chains([f]) if c[0] != 'self'}
     s2 = equiv.sized_chains(_class_scope(ref_tree, cls_r, 'ref') if cls_r is not None else []) | {c for c in equiv.sized_chains([rf]) if c[0] != 'self'}
-    c1 = equiv.canonical(f, new_helpers, cur_consts, s1, cls.name if cls is not None else '', cur_props)
+    c1 = equiv.canonical(f, new_helpers, cur_consts, s1, cls.name if cls is not None else '', cur_props, equiv.module_dicts(cur_tree) if cur_tree is not None else None)
     if c1 is None:
         return None, None
-    c2 = equiv.canonical(rf, gone_helpers, ref_consts, s2, cls_r.name if cls_r is not None else '', ref_props)
+    c2 = equiv.canonical(rf, gone_helpers, ref_consts, s2, cls_r.name if cls_r is not None else '', ref_props, equiv.module_dicts(ref_tree) if ref_tree is not None else None)
     return c1, c2
 
 
